@@ -128,6 +128,23 @@ func expectIrreversible(shape string) (string, bool) {
 	if !strings.HasPrefix(shape, "hand:pair:") {
 		return "", false
 	}
+	return expectIrreversibleIn(shape)
+}
+
+// expectIrreversibleColmod: on PostgreSQL a column modification that drops the generation expression.
+func expectIrreversibleColmod(d, shape string) bool {
+	if d != "postgres" || !strings.HasPrefix(shape, "hand:colmod:") {
+		return false
+	}
+	for _, a := range strings.Split(strings.TrimPrefix(shape, "hand:colmod:"), "+") {
+		if a == "gendrop" {
+			return true
+		}
+	}
+	return false
+}
+
+func expectIrreversibleIn(shape string) (string, bool) {
 	for _, n := range strings.Split(strings.TrimPrefix(shape, "hand:pair:"), "+") {
 		if isIrreversibleClause(n) {
 			return n, true
@@ -168,8 +185,89 @@ func pairChanges(d string, s *schema.Schema, spec string) ([]schema.Change, bool
 	return []schema.Change{&schema.ModifyTable{T: t, Changes: list}}, true
 }
 
+// colmodAttrs are the attributes a hand-built per-column modification ("colmod:<a>+<b>[+<c>]") changes on
+// ONE column at once; the change list comes from the dialect's real TableDiff. "gendrop": the column
+// loses its STORED generation expression — on PostgreSQL nothing turns a regular column back into a
+// generated one (the differ itself rejects that direction), so such a plan must not be reported reversible.
+var colmodAttrs = []string{"gendrop", "type", "null", "default", "comment"}
+
+// colmodNames lists every non-empty subset of up to three attributes.
+func colmodNames() []string {
+	var out []string
+	n := len(colmodAttrs)
+	for mask := 1; mask < 1<<n; mask++ {
+		var as []string
+		for i := 0; i < n; i++ {
+			if mask&(1<<i) != 0 {
+				as = append(as, colmodAttrs[i])
+			}
+		}
+		if len(as) <= 3 {
+			out = append(out, "colmod:"+strings.Join(as, "+"))
+		}
+	}
+	return out
+}
+
+func colmodChanges(d string, spec string) ([]schema.Change, bool, error) {
+	has := map[string]bool{}
+	for _, a := range strings.Split(spec, "+") {
+		has[a] = true
+	}
+	sc := schema.New("s1")
+	if d == "postgres" {
+		sc = schema.New("public")
+	}
+	mk := func(after bool) *schema.Table {
+		typ := "integer"
+		if d == "mysql" {
+			typ = "int"
+		}
+		if after && has["type"] {
+			typ = "bigint"
+		}
+		total := schema.NewIntColumn("total", typ)
+		if after && has["null"] {
+			total.SetNull(true)
+		}
+		if after && has["default"] {
+			total.SetDefault(&schema.Literal{V: "0"})
+		}
+		if after && has["comment"] {
+			total.SetComment("c17")
+		}
+		if has["gendrop"] && !after {
+			total.SetGeneratedExpr(&schema.GeneratedExpr{Expr: "price * qty", Type: "STORED"})
+		}
+		t := schema.NewTable("orders").SetSchema(sc).AddColumns(schema.NewIntColumn("id", typ0(d)), schema.NewIntColumn("price", typ0(d)), schema.NewIntColumn("qty", typ0(d)), total)
+		return t
+	}
+	from, to := mk(false), mk(true)
+	ch, err := dialects[d].diff.TableDiff(from, to)
+	if err != nil {
+		return nil, true, err
+	}
+	if len(ch) == 0 {
+		return nil, false, nil
+	}
+	return []schema.Change{&schema.ModifyTable{T: to, Changes: ch}}, true, nil
+}
+
+func typ0(d string) string {
+	if d == "mysql" {
+		return "int"
+	}
+	return "integer"
+}
+
 // handChanges builds the named change list over a fresh graph of the model. ok=false: not applicable.
 func handChanges(d string, m *dmodel.Model, name string) (changes []schema.Change, ok bool, err error) {
+	if strings.HasPrefix(name, "colmod:") {
+		if d == "sqlite" {
+			return nil, false, nil
+		}
+		return colmodChanges(d, strings.TrimPrefix(name, "colmod:"))
+	}
 	s := dmodel.Build(m)
 	if strings.HasPrefix(name, "pair:") {
 		if d == "sqlite" {
@@ -702,9 +800,15 @@ func checkLiquibase(p *migrate.Plan, text string, want []string) (res downResult
 // clauses returns the heads ("ADD COLUMN", "DROP INDEX", "COMMENT", …) of the top-level, comma separated
 // clauses of an ALTER TABLE statement (after the table name). Quotes and parentheses are respected.
 func clauses(stmt string) (heads []string, ok bool) {
+	heads, _, ok = clausesText(stmt)
+	return
+}
+
+// clausesText is clauses that also returns the clause texts (parallel to the heads).
+func clausesText(stmt string) (heads, texts []string, ok bool) {
 	f := strings.Fields(stmt)
 	if len(f) < 3 || !strings.EqualFold(f[0], "ALTER") || !strings.EqualFold(f[1], "TABLE") {
-		return nil, false
+		return nil, nil, false
 	}
 	// skip "ALTER TABLE <name>": the name is the third field (quoted names of the generators hold no blanks)
 	rest := strings.TrimSpace(stmt)
@@ -719,7 +823,7 @@ func clauses(stmt string) (heads []string, ok bool) {
 	}
 	rest = strings.TrimSpace(rest)
 	if rest == "" {
-		return nil, true
+		return nil, nil, true
 	}
 	var parts []string
 	depth, start := 0, 0
@@ -764,8 +868,45 @@ func clauses(stmt string) (heads []string, ok bool) {
 			}
 		}
 		heads = append(heads, h)
+		texts = append(texts, strings.TrimSpace(p))
 	}
-	return heads, true
+	return heads, texts, true
+}
+
+// columnAttrs lists what the `ALTER COLUMN <c> …` clauses (PostgreSQL) of a statement touch, as
+// "<column>:<attribute>" with attribute ∈ type | null | default | generated | identity | other.
+func columnAttrs(stmt string) (map[string]bool, bool) {
+	heads, texts, ok := clausesText(stmt)
+	if !ok {
+		return nil, false
+	}
+	out := map[string]bool{}
+	for i, h := range heads {
+		if h != "ALTER COLUMN" {
+			continue
+		}
+		w := strings.Fields(texts[i])
+		if len(w) < 4 {
+			continue
+		}
+		col, rest := w[2], strings.ToUpper(strings.Join(w[3:], " "))
+		attr := "other"
+		switch {
+		case strings.HasPrefix(rest, "TYPE"), strings.HasPrefix(rest, "SET DATA TYPE"):
+			attr = "type"
+		case strings.HasPrefix(rest, "SET NOT NULL"), strings.HasPrefix(rest, "DROP NOT NULL"):
+			attr = "null"
+		case strings.HasPrefix(rest, "SET DEFAULT"), strings.HasPrefix(rest, "DROP DEFAULT"):
+			attr = "default"
+		case strings.HasPrefix(rest, "DROP EXPRESSION"), strings.HasPrefix(rest, "SET EXPRESSION"):
+			attr = "generated"
+		case strings.HasPrefix(rest, "ADD GENERATED"), strings.HasPrefix(rest, "DROP IDENTITY"), strings.HasPrefix(rest, "SET GENERATED"),
+			strings.HasPrefix(rest, "RESTART"), strings.HasPrefix(rest, "SET INCREMENT"), strings.HasPrefix(rest, "SET START"):
+			attr = "identity"
+		}
+		out[col+":"+attr] = true
+	}
+	return out, true
 }
 
 var inverseVerb = map[string][]string{
@@ -850,6 +991,24 @@ func shapeIssues(o planObs) (out []shapeIssue) {
 				for _, h := range sortedSet(lost) {
 					out = append(out, shapeIssue{"alter-table-reverse-lacks-clauses|" + h, cmd, revs[0],
 						fmt.Sprintf("ALTER TABLE with %d clauses %v is reversed by an ALTER TABLE with %d %v: nothing undoes %s", len(ch), ch, len(rh), rh, h)})
+				}
+			}
+		}
+		// sub-clauses of one column change: every attribute of a column that the forward ALTER COLUMN
+		// clauses touch must be touched by the reverse as well (and nothing else)
+		if fa, ok := columnAttrs(cmd); ok && len(revs) == 1 {
+			if ra, ok2 := columnAttrs(revs[0]); ok2 {
+				for _, a := range sortedSet(fa) {
+					if !ra[a] {
+						out = append(out, shapeIssue{"alter-column-attribute-not-reversed|" + a[strings.LastIndexByte(a, ':')+1:], cmd, revs[0],
+							fmt.Sprintf("the forward statement alters %s, the reverse statement does not (forward %v, reverse %v)", a, sortedSet(fa), sortedSet(ra))})
+					}
+				}
+				for _, a := range sortedSet(ra) {
+					if !fa[a] {
+						out = append(out, shapeIssue{"alter-column-attribute-only-in-reverse|" + a[strings.LastIndexByte(a, ':')+1:], cmd, revs[0],
+							fmt.Sprintf("the reverse statement alters %s, the forward statement does not (forward %v, reverse %v)", a, sortedSet(fa), sortedSet(ra))})
+					}
 				}
 			}
 		}
@@ -994,6 +1153,14 @@ func evalFlagCase(c *rt.Ctx, w *rt.W, cs FCase) {
 		if !p.Reversible {
 			c.Violation("flag|"+cs.Dialect+"|reversible-clauses-reported-irreversible|"+strings.TrimPrefix(cs.Shape, "hand:pair:"),
 				"a ModifyTable of reversible clauses only is reported irreversible", cs, map[string]any{"plan": planText(p)})
+		}
+	}
+	if strings.HasPrefix(cs.Shape, "hand:colmod:") {
+		c.Count("per-column-multi-attribute-modifications:"+cs.Dialect, 1)
+		if expectIrreversibleColmod(cs.Dialect, cs.Shape) && p.Reversible {
+			c.Violation("flag|postgres|irreversible-clause-reported-reversible|drop-generation-expression",
+				"a column modification that drops the generation expression ("+strings.TrimPrefix(cs.Shape, "hand:colmod:")+") is reported reversible", cs,
+				map[string]any{"plan": planText(p)})
 		}
 	}
 	judgePlan(c, cs.Dialect, p, cs, true)
